@@ -26,6 +26,7 @@ package synchronizer
 //@ func (*timeoutCollector).add property C08
 //@   requires s.config != nil && nodup(s.timeouts)
 //@   ensures [inv-noquorum] !result1 ==> nodup(s.timeouts)
+//@   ensures [inv-quorum] result1 ==> nodup(s.timeouts)
 //@   ensures [P1-only-that-view] result1 ==> forall i int :: 0 <= i && i < len(result0) ==> result0[i].View == timeout.View
 //@   ensures [P2-distinct] result1 ==> forall i int, j int :: 0 <= i && i < j && j < len(result0) ==> result0[i].ID != result0[j].ID
 //@   ensures [P3-quorum] result1 ==> len(result0) >= hotstuff.Q(len(s.config.replicas))
@@ -45,6 +46,7 @@ package synchronizer
 //@   modifies s.timeouts, s.timeouts[*], alloc
 
 //@ func (*timeoutCollector).deleteOldViews property C08
+//@   ensures [inv] old(nodup(s.timeouts)) ==> nodup(s.timeouts)
 //@   ensures [filtered] forall i int :: {s.timeouts[i].View} 0 <= i && i < len(s.timeouts) ==> s.timeouts[i].View >= currentView
 //@   ensures [shrinks] len(s.timeouts) <= old(len(s.timeouts))
 //@   modifies s.timeouts, s.timeouts[*]
@@ -127,6 +129,7 @@ package synchronizer
 //@   ensures [collected-once-or-rejected] (tracelen(tadd) == old(tracelen(tadd)) + 1 && traceat(tadd, 0, old(tracelen(tadd))) == timeout.ID && traceat(tadd, 1, old(tracelen(tadd))) == timeout.View && tracelen(tlog) == old(tracelen(tlog))) || (tracelen(tadd) == old(tracelen(tadd)) && tracelen(tlog) == old(tracelen(tlog)) + 1)
 //@   ensures [view-forward] s.state.view >= old(s.state.view) && s.state.view <= old(s.state.view) + 2
 //@   ensures [inv] swf(s)
+//@   ensures [collector-inv] nodup(s.timeouts.timeouts)
 //@   modifies s.state.view, s.state.highQC, s.lastTimeout, s.timer, s.voter.lastVotedView, s.proposer.lastProposed, s.timeouts.timeouts, s.timeouts.timeouts[*], trace(added), trace(tadd), trace(tlog), alloc
 //@   preserves @std
 
@@ -152,5 +155,6 @@ package synchronizer
 //@   ghost at call Timeout :: emit tl(2, op1.View)
 //@   ensures [stop-before-send] forall k int :: {traceat(tl, 0, k)} old(tracelen(tl)) <= k && k < tracelen(tl) && traceat(tl, 0, k) == 2 ==> traceat(tl, 1, k) <= old(s.voter.lastVotedView) || (k > old(tracelen(tl)) && traceat(tl, 0, k - 1) == 1 && traceat(tl, 1, k - 1) >= traceat(tl, 1, k))
 //@   ensures [inv] swf(s)
+//@   ensures [collector-inv] nodup(s.timeouts.timeouts)
 //@   modifies s.state.view, s.state.highQC, s.lastTimeout, s.timer, s.voter.lastVotedView, s.proposer.lastProposed, s.timeouts.timeouts, s.timeouts.timeouts[*], trace(added), trace(tl), trace(timeoutsent), alloc
 //@   preserves @std
